@@ -360,6 +360,52 @@ def split_or_guard_arms(src, frontend):
     return out, ["R16-auto: match arm `%s if ..` has an or-pattern and a guard; written as one guarded arm per alternative, same order" % t[:120] for _, _, _, t in edits]
 
 
+def havoc_free_locals(src, frontend):
+    """R17-auto: a slice that uses a local variable of the enclosing function which is defined OUTSIDE the slice (`cannot find value X in this scope`, X lower-case) gets
+    `let X = verif_nondet_val();` at the start of the function the use is in: any value of whatever type the use requires (inferred by rustc).  Sound for proofs - every
+    value is explored - and it keeps an edited function decidable.  Returns (new_src, [descriptions]) or (None, [])."""
+    bsrc = src.encode("utf-8")
+    toks = extract.code_tokens(src)
+    edits = {}
+    for fe in frontend:
+        m = re.search(r"cannot find value `([a-z_][a-z0-9_]*)` in this scope", fe.get("message", ""))
+        if not m:
+            continue
+        off = len(bsrc[:fe["byte_start"]].decode("utf-8", "ignore"))
+        best = None
+        for idx, (kind, a, b) in enumerate(toks):
+            if a > off:
+                break
+            if kind == "ident" and src[a:b] == "fn":
+                bo = extract.find_block_open(src, toks, idx)
+                if bo is None:
+                    continue
+                bc = extract.match_brace(src, toks, bo)
+                if toks[bo][2] <= off < toks[bc][1]:
+                    best = toks[bo][2]
+        if best is not None:
+            edits.setdefault(best, [])
+            if m.group(1) not in edits[best]:
+                edits[best].append(m.group(1))
+    if not edits:
+        return None, []
+    out = src
+    fn_of = {}
+    for pos in edits:
+        head = src[:pos]
+        mm = list(re.finditer(r"\bfn\s+(\w+)", head))
+        fn_of[pos] = mm[-1].group(1) if mm else "?"
+    for pos in sorted(edits, reverse=True):
+        out = out[:pos] + "\n" + "".join("    let %s = verif_nondet_val();\n" % n for n in edits[pos]) + out[pos:]
+    if "fn verif_nondet_val" not in out:
+        k = out.rfind("} // verus!")
+        if k < 0:
+            return None, []
+        out = out[:k] + "#[verifier::external_body] pub fn verif_nondet_val<T>() -> T { unimplemented!() }\n" + out[k:]
+    return out, ["R17-auto: in fn %s: `%s` is a local of the enclosing function defined outside the slice; unconstrained value (a failed obligation of this function is then not decided)" % (fn_of[pos], n)
+                 for pos, ns in edits.items() for n in ns]
+
+
 def desugar_destructuring_assign(src):
     """R13-auto: a destructuring assignment statement `(A, B, ..) = EXPR;` (not supported by Verus) is desugared the way rustc does:
     `let (verif_d0, verif_d1, ..) = EXPR; A = verif_d0; B = verif_d1; ..`."""
@@ -537,6 +583,8 @@ def run_unit(name, tier):
         if new_src is None:
             new_src, notes = havoc_typed_lets(cur, r["frontend"])
         if new_src is None:
+            new_src, notes = havoc_free_locals(cur, r["frontend"])
+        if new_src is None:
             break
         with open(b["path"], "w", encoding="utf-8") as f:
             f.write(new_src)
@@ -555,9 +603,13 @@ def run_unit(name, tier):
         return out
     fails = [f for f in r["failures"] if f["fn"] != "__verif_canary"]
     weak = weak_functions(open(b["path"], encoding="utf-8").read())
+    for note in out["auto_rewrites"]:
+        mm = re.match(r"R17-auto: in fn (\w+): `(\w+)`", note)
+        if mm:
+            weak.setdefault(mm.group(1), "free local `%s` of the enclosing function replaced by an unconstrained value" % mm.group(2))
     lost = [f for f in fails if f["fn"] in weak]
     if lost:
-        out["undecided"] = ("function(s) %s contain a closure without a contract (%s): failed obligations there are not decided" %
+        out["undecided"] = ("function(s) %s have an unconstrained part (%s): failed obligations there are not decided" %
                             (sorted({f["fn"] for f in lost}), "; ".join(sorted({weak[f["fn"]] for f in lost}))))
         return out
     out["functions"] = [f for f in r["functions"] if f["function"] != "__verif_canary"]
